@@ -74,4 +74,95 @@ theorem window_two_part (r : Rec) (hcirc : r.circular = true) (x y c : Int) (hy0
   · rintro ⟨i, j, hi, h0, h1, hj, hr⟩
     exact ⟨i, hi, (hmem i).2 ⟨h0, h1, j, hj, hr⟩⟩
 
+/-- the location `_extend_area_location(core, n, force_cross_origin=True)` gives an origin-spanning core -/
+def nbhdTwo (x y d L : Int) : Loc :=
+  if x - y < 2 * d then .compound [⟨(x - y) / 2 + y, L, .fwd⟩, ⟨0, max y ((x - y) / 2 + y - 1), .fwd⟩]
+  else .compound [⟨x - d, L, .fwd⟩, ⟨0, y + d, .fwd⟩]
+
+theorem extendArea_ring_two_force (r : Rec) (hcirc : r.circular = true) (x y c : Int) (hy0 : 0 < y) (hyx : y ≤ x)
+    (hxL : x < r.len) (hc : 0 ≤ c) :
+    extendArea r (areaTwo x y r.len .fwd) c true = .ok (nbhdTwo x y (min c ((x - y) / 2 + 1)) r.len) := by
+  have hL : 0 < r.len := by omega
+  have hd0 : 0 ≤ min c ((x - y) / 2 + 1) := by omega
+  have hb := bridges_areaTwo_fwd x y r.len hy0 hyx
+  have hext := extend_area_ring_eq x y (min c ((x - y) / 2 + 1)) r.len hL hy0 hyx hxL hd0
+  have hwf := extAreaRing_wf x y (min c ((x - y) / 2 + 1)) r.len hL hy0 hyx hxL hd0
+  have hshape := extAreaRing_shape x y (min c ((x - y) / 2 + 1)) r.len
+  have hconn := connect_self _ r.len hL hwf hshape
+  have hcap : (r.len - (areaTwo x y r.len .fwd).len) / 2 + 1 = (x - y) / 2 + 1 := by
+    rw [areaTwo_len]; congr 2; omega
+  have hstrand : (areaTwo x y r.len .fwd).strand = .fwd := by simp [areaTwo, Loc.strand]
+  have hplen : (areaTwo x y r.len .fwd).parts.length = 2 := by simp [areaTwo, Loc.parts]
+  have hhead : (areaTwo x y r.len .fwd).parts.head? = some ⟨x, r.len, .fwd⟩ := by simp [areaTwo, Loc.parts]
+  have hlast : (areaTwo x y r.len .fwd).parts.getLast? = some ⟨0, y, .fwd⟩ := by simp [areaTwo, Loc.parts]
+  by_cases hcase : x - y < 2 * min c ((x - y) / 2 + 1)
+  · have he : extAreaRing x y (min c ((x - y) / 2 + 1)) r.len = .simple ⟨0, r.len, .fwd⟩ := by
+      unfold extAreaRing; rw [if_pos hcase]
+    rw [he] at hext hconn
+    have hn : nbhdTwo x y (min c ((x - y) / 2 + 1)) r.len =
+        .compound [⟨(x - y) / 2 + y, r.len, .fwd⟩, ⟨0, max y ((x - y) / 2 + y - 1), .fwd⟩] := by
+      unfold nbhdTwo; rw [if_pos hcase]
+    rw [hn]
+    have hlenW : (Loc.simple ⟨0, r.len, .fwd⟩).len = r.len := by simp [Loc.len, Loc.parts, Part.len]
+    have hbW : bridgesOrigin (Loc.simple ⟨0, r.len, .fwd⟩) = false := rfl
+    have hstrW : (Loc.simple ⟨0, r.len, .fwd⟩).strand = .fwd := rfl
+    have hpl : (Loc.compound [⟨(x - y) / 2 + y, r.len, .fwd⟩, ⟨0, max y ((x - y) / 2 + y - 1), .fwd⟩]).parts.length = 2 := rfl
+    simp [extendArea, hcirc, hstrand, hplen, hb, hcap, hext, Rec.wrap, hconn, hhead, hlast, hlenW, hbW, hstrW, hpl,
+      bind, Except.bind, pure, Except.pure]
+  · have he : extAreaRing x y (min c ((x - y) / 2 + 1)) r.len =
+        .compound [⟨x - min c ((x - y) / 2 + 1), r.len, .fwd⟩, ⟨0, y + min c ((x - y) / 2 + 1), .fwd⟩] := by
+      unfold extAreaRing; rw [if_neg hcase]
+    rw [he] at hext hconn
+    have hn : nbhdTwo x y (min c ((x - y) / 2 + 1)) r.len =
+        .compound [⟨x - min c ((x - y) / 2 + 1), r.len, .fwd⟩, ⟨0, y + min c ((x - y) / 2 + 1), .fwd⟩] := by
+      unfold nbhdTwo; rw [if_neg hcase]
+    rw [hn]
+    have hb2 : bridgesOrigin (Loc.compound [⟨x - min c ((x - y) / 2 + 1), r.len, .fwd⟩, ⟨0, y + min c ((x - y) / 2 + 1), .fwd⟩]) = true :=
+      bridges_areaTwo_fwd (x - min c ((x - y) / 2 + 1)) (y + min c ((x - y) / 2 + 1)) r.len (by omega) (by omega)
+    have hpl : (Loc.compound [⟨x - min c ((x - y) / 2 + 1), r.len, .fwd⟩, ⟨0, y + min c ((x - y) / 2 + 1), .fwd⟩]).parts.length = 2 := rfl
+    simp [extendArea, hcirc, hstrand, hplen, hb, hcap, hext, Rec.wrap, hconn, hb2, hpl, bind, Except.bind, pure,
+      Except.pure]
+
+theorem nbhdTwo_props (x y d L : Int) (hy0 : 0 < y) (hyx : y ≤ x) (hxL : x < L) (hd : 0 ≤ d)
+    (hdcap : d ≤ (x - y) / 2 + 1) :
+    (∃ a b, nbhdTwo x y d L = .compound [⟨a, L, .fwd⟩, ⟨0, b, .fwd⟩] ∧ 0 < b ∧ b ≤ a ∧ a < L ∧ a ≤ x ∧ y ≤ b) := by
+  unfold nbhdTwo
+  by_cases hcase : x - y < 2 * d
+  · rw [if_pos hcase]
+    exact ⟨_, _, rfl, by omega, by omega, by omega, by omega, by omega⟩
+  · rw [if_neg hcase]
+    exact ⟨_, _, rfl, by omega, by omega, by omega, by omega, by omega⟩
+
+/-- `Protocluster(core, surrounds)` succeeds for an origin-spanning core inside an origin-spanning area -/
+theorem mkPC_two (rule : String) (x y a b L : Int) (hy0 : 0 < y) (hyx : y ≤ x) (hb0 : 0 < b) (hba : b ≤ a) (haL : a < L) :
+    mkPC rule (areaTwo x y L .fwd) (.compound [⟨a, L, .fwd⟩, ⟨0, b, .fwd⟩]) =
+      .ok ⟨rule, areaTwo x y L .fwd, .compound [⟨a, L, .fwd⟩, ⟨0, b, .fwd⟩]⟩ := by
+  have hbc := bridges_areaTwo_fwd x y L hy0 hyx
+  have hbw : bridgesOrigin (.compound [⟨a, L, .fwd⟩, ⟨0, b, .fwd⟩]) = true := bridges_areaTwo_fwd a b L hb0 hba
+  have h1 : ¬ (b = L) := by omega
+  have h2 : ¬ (minList [a, 0] > maxList [L, b]) := by simp [minList, maxList]; omega
+  have h3 : ¬ (minList [a, 0] < 0) := by simp [minList]; omega
+  have hcl : (areaTwo x y L .fwd).parts.length = 2 := by simp [areaTwo, Loc.parts]
+  simp [mkPC, hbc, hbw, areaTwo, Loc.parts, Loc.start, Loc.end, Loc.strand, dupEnds, h1, h2, h3, pure, Except.pure]
+
+/-- the protocluster of an origin-spanning core: `_extend_area_location(…, force_cross_origin=True)` and the
+    constructor succeed; the location spans the origin, is a well-formed area and covers the core -/
+theorem protocluster_two_part (r : Rec) (hcirc : r.circular = true) (rule : String) (x y n : Int) (hy0 : 0 < y)
+    (hyx : y ≤ x) (hxL : x < r.len) (hn : 0 ≤ n) :
+    ∃ W, extendArea r (areaTwo x y r.len .fwd) n true = .ok W ∧
+      mkPC rule (areaTwo x y r.len .fwd) W = .ok ⟨rule, areaTwo x y r.len .fwd, W⟩ ∧
+      RingArea r.len W ∧ bridgesOrigin W = true ∧ Covers W (areaTwo x y r.len .fwd) := by
+  obtain ⟨a, b, hW, hb0, hba, haL, hax, hyb⟩ := nbhdTwo_props x y (min n ((x - y) / 2 + 1)) r.len hy0 hyx hxL
+    (by omega) (by omega)
+  refine ⟨_, extendArea_ring_two_force r hcirc x y n hy0 hyx hxL hn, ?_, ?_, ?_, ?_⟩
+  · rw [hW]; exact mkPC_two rule x y a b r.len hy0 hyx hb0 hba haL
+  · rw [hW]
+    refine ⟨?_, Or.inr ⟨a, b, rfl⟩⟩
+    simp [areaWF, Loc.parts]; omega
+  · rw [hW]; exact bridges_areaTwo_fwd a b r.len hb0 hba
+  · rw [hW]
+    intro i hi
+    simp only [areaTwo, Loc.mem, Loc.parts, List.any_cons, List.any_nil, Bool.or_false, Bool.or_eq_true, Part.mem_iff] at hi ⊢
+    omega
+
 end ASV.Proto
